@@ -92,13 +92,13 @@ def nodes(ns):
     return [node(n) for n in ns]
 
 
-def parse_text(text):
-    """real tokenise+parse; returns (tokens_json, tree_json, error)"""
+def parse_text(text, vflag=False):
+    """real tokenise+parse; returns (tokens_json, tree_json, error); vflag: variables_as_digraphs (flag V)"""
     from vyxal.lexer import tokenise
     from vyxal.parse import parse
 
     try:
-        ts = tokenise(text)
+        ts = tokenise(text, True) if vflag else tokenise(text)
     except Exception as e:  # noqa: BLE001
         return None, None, "lex:" + type(e).__name__
     try:
